@@ -233,6 +233,8 @@ def b_len(it, args, kwargs, node):
         return IntV(len(v.items))
     if isinstance(v, PyLit):
         return IntV(len(v.value))
+    if isinstance(v, RangeV):
+        return IntV(it.range_count(v))
     if isinstance(v, (ConstV, IntV)):
         raise Raised(ExcV(TypeError, [], node=node, stack=it.stack, op=f'len({v!r})', definite=True))
     if isinstance(v, ObjV):
@@ -432,7 +434,66 @@ def b_bytes(it, args, kwargs, node):
     l = it.as_lin(v)
     if l is not None:
         return seqops.normalise(it, 'bytes', (Rep(b'\x00', l),))
+    if isinstance(v, (IterV, ListV)) and not getattr(v, 'filtered', False) and v.len is not None and \
+            isinstance(v.elem if not (isinstance(v, ListV) and v.items is not None) else None, IntV):
+        x = _xor_bytes_value(it, v.elem, v.len)
+        if x is not None:
+            return x
+        lo, hi = it.store.bounds(v.elem.lin)
+        if lo is not None and hi is not None and lo >= 0 and hi <= 255:
+            return seqops.opaque(it, 'bytes', v.len, ('bytes-of', v.elem), deps=(v.elem,), tags=value_tags(v.elem))
     return seqops.opaque_fresh(it, 'bytes', f'bytes({v!r})', tags=value_tags(v))
+
+
+def _is_zero_bytes(it, sv):
+    return isinstance(sv, SeqV) and all((isinstance(g, Rep) and g.unit == b'\x00') or
+                                        (isinstance(g, Lit) and set(g.data) <= {0}) for g in sv.segs)
+
+
+def _xor_bytes_value(it, elem, length):
+    """bytes(a ^ b ^ ... for a, b, ... in zip(A, B, ...)) -> the elementwise XOR of index-aligned byte strings."""
+    syms = elem.lin.syms()
+    if not (len(syms) == 1 and elem.lin == Lin.sym(syms[0])):
+        return None
+    o = it.origin.get(syms[0])
+    if isinstance(o, tuple) and o and o[0] == 'byte-of':
+        atoms = [Lin.sym(syms[0])]
+    elif isinstance(o, tuple) and o and o[0] == 'xor':
+        atoms = list(o[1])
+    else:
+        return None
+    seqs, tokens = [], set()
+    for a in atoms:
+        asy = a.syms()
+        if not (len(asy) == 1 and a == Lin.sym(asy[0])):
+            return None
+        ao = it.origin.get(asy[0])
+        if not (isinstance(ao, tuple) and ao and ao[0] == 'byte-of'):
+            return None
+        tokens.add(ao[2])
+        seqs.append(ao[1])
+    if len(tokens) != 1 or None in tokens:
+        return None
+    flat = []
+    for sv in seqs:
+        if _is_zero_bytes(it, sv):
+            continue
+        if len(sv.segs) == 1 and isinstance(sv.segs[0], Opq) and isinstance(sv.segs[0].desc, tuple) and \
+                sv.segs[0].desc and sv.segs[0].desc[0] == 'xorb':
+            inner = list(sv.segs[0].desc[1])
+        else:
+            inner = [sv]
+        for x in inner:
+            # equal operands cancel
+            k = next((i for i, y in enumerate(flat) if y is x or repr(y) == repr(x)), None)
+            if k is None:
+                flat.append(x)
+            else:
+                del flat[k]
+    tags = frozenset().union(*[value_tags(x) for x in flat]) if flat else frozenset()
+    if not flat:
+        return seqops.normalise(it, 'bytes', (Rep(b'\x00', length),))
+    return seqops.opaque(it, 'bytes', length, ('xorb', tuple(flat)), deps=tuple(flat), tags=tags)
 
 
 def b_format(it, args, kwargs, node):
@@ -464,6 +525,14 @@ def b_range(it, args, kwargs, node):
     st = it.store.canon(ls[2])
     if st.is_const() and st.c == 1:
         return RangeV(ls[0], ls[1])
+    lo, hi = it.store.canon(ls[0]), it.store.canon(ls[1])
+    if st.is_const() and st.c != 0 and lo.is_const() and hi.is_const():
+        vals = list(range(lo.c, hi.c, st.c))
+        if len(vals) <= 8:
+            return ListV(items=[IntV(x) for x in vals])
+    if st.is_const() and st.c > 1:
+        return RangeV(ls[0], ls[1], st.c)
+    it.note_unknown(node, 'range() with a negative or symbolic step')
     return IterV(it.sym_int('i'), desc='range-step')
 
 
@@ -606,10 +675,38 @@ def b_enumerate(it, args, kwargs, node):
 
 def b_zip(it, args, kwargs, node):
     elems = []
+    lens = []
+    token = it.fresh('zip')
     for a in args:
-        e, _ = it.iter_element(it.resolve(a), node)
+        e, ln = it.iter_element(it.resolve(a), node)
+        # elements drawn by one zip() are index aligned
+        if isinstance(e, IntV) and len(e.lin.syms()) == 1:
+            o = it.origin.get(e.lin.syms()[0])
+            if isinstance(o, tuple) and o and o[0] == 'byte-of':
+                it.origin[e.lin.syms()[0]] = ('byte-of', o[1], token)
         elems.append(e)
-    return IterV(TupleV(elems), src=args, desc='zip')
+        lens.append(ln)
+    length = None
+    if lens and all(l is not None for l in lens):
+        # zip stops at the shortest operand
+        best = lens[0]
+        ok = True
+        for l in lens[1:]:
+            if it.store.prove_ge0(l - best):
+                continue
+            if it.store.prove_ge0(best - l):
+                best = l
+            else:
+                ok = False
+        if ok:
+            length = best
+        else:
+            m = it.fresh('minlen')
+            it.store.declare(m, 0, None, info='length of zip()')
+            for l in lens:
+                it.store.assume_ge0(l - Lin.sym(m))
+            length = Lin.sym(m)
+    return IterV(TupleV(elems), src=args, desc='zip', length=length)
 
 
 def b_sum(it, args, kwargs, node):
@@ -777,7 +874,31 @@ def b_next(it, args, kwargs, node):
         r = v.cls.lookup('__next__')
         if r and r[0] == 'method':
             return it.call_function(r[1], [], {}, self_obj=v, node=node)
-    e, _ = it.iter_element(v, node)
+    default = args[1] if len(args) > 1 else None
+    if isinstance(v, (ListV, TupleV)) and getattr(v, 'items', None) is not None:
+        # first element of a concrete sequence (a comprehension over a small literal is evaluated exactly)
+        if v.items:
+            return v.items[0]
+        if default is not None:
+            return default
+        raise Raised(ExcV(StopIteration, [], node=node, stack=it.stack, op='next() of an empty iterator', definite=True))
+    e, ln = it.iter_element(v, node)
+    empty_possible = not (ln is not None and it.store.prove_ge0(ln - 1)) or getattr(v, 'filtered', False)
+    if default is not None:
+        if not empty_possible:
+            return e
+        # some element (of the filtered kind) or the default: which one is not decided by this model
+        if it.choose(2, 'next(): element / default') in (0, None):
+            if getattr(v, 'filtered', False):
+                it.note_unknown(node, 'next() over a filtered generator: the filter is not applied to the chosen element')
+            if ln is not None:
+                it.store.assume_ge0(ln - 1)
+            return e
+        if not getattr(v, 'filtered', False) and ln is not None:
+            it.store.assume_eq0(ln)
+        elif getattr(v, 'filtered', False):
+            it.note_unknown(node, 'next() default of a filtered generator: no element passed the filter')
+        return default
     it.may_raise(StopIteration, node, 'next()', wire=False)
     return e
 
